@@ -181,6 +181,12 @@ def watchCmd (c : Nat) (d : Nat) (args : List Arg) (cis : List CI) : M SpecialOu
   modifyConn c fun x => { x with watches := ks.foldl (fun w key => if w.contains (d, key) then w else w ++ [(d, key)]) x.watches }
   okR .ok cis
 
+/-- EVAL / EVALSHA / SCRIPT (the script is executed by the host; see `FR/Sys/Script.lean`) -/
+def scriptCmd (inner : Inner) (c : Nat) (name : String) (args : List Arg) (cis : List CI) : M SpecialOut := do
+  let _ := (inner, c, args)
+  fault ("model: command not modelled: " ++ name)
+  return .error ("model: command not modelled: " ++ name) <|> .ok (none, cis)
+
 /-- bodies that touch the database, the server or the connection -/
 def special (inner : Inner) (mode : Mode) (c : Nat) (name : String) (args : List Arg) (cis : List CI) :
     M SpecialOut := do
@@ -270,6 +276,7 @@ def special (inner : Inner) (mode : Mode) (c : Nat) (name : String) (args : List
     match ← zunioninter (name == "zunionstore") d args cis with
     | .ok (r, cis') => return .ok (some r, cis')
     | .error e => return .error e
+  | "eval" | "evalsha" | "script" => scriptCmd inner c name args cis
   | _ => fault ("model: command not modelled: " ++ name); return .error ("model: command not modelled: " ++ name)
 
 /-- level 0: the commands run by EXEC; an EXEC cannot be queued, so the innermost level has none -/
